@@ -111,6 +111,14 @@ func (propC07) Gen(r *Rng, tier string) *World {
 	}
 	ne := r.Range(1, 3)
 	for i := 0; i < ne; i++ {
+		if r.P(0.15) {
+			// the type of the result depends on the binding: EvalBool/TryEvalBool
+			// succeed for some calls and report a type error for others
+			g.left = 60
+			w.Progs = append(w.Progs, If(g.Expr(TBool, 3), g.Expr(TBool, 3), g.Expr([]Ty{TInt, TStr, TIntList}[r.Intn(3)], 3)))
+			w.Exprs = append(w.Exprs, ExprSpec{Prog: i, Mask: r.Intn(16), Event: []string{"", "", "report", "debug", "both"}[r.Intn(5)]})
+			continue
+		}
 		w.Progs = append(w.Progs, g.Program())
 		w.Exprs = append(w.Exprs, ExprSpec{Prog: i, Mask: r.Intn(16), Event: []string{"", "", "report", "debug", "both"}[r.Intn(5)]})
 	}
@@ -283,28 +291,45 @@ func (pr propC07) Run(w *World, st *Stats) *Violation {
 	if engine == "bubble" && workerT == nil {
 		engine = "inline"
 	}
-	// isolated baselines: every call on privately compiled copies
+	// isolated baselines: every call on privately compiled copies. Under the
+	// race detector they are computed AFTER the concurrent phase, so that the
+	// first evaluations of a fresh process happen in the tasks themselves (an
+	// unsynchronised lazy initialisation inside the library is then visible).
 	ncalls := 0
+	for _, script := range w.Tasks {
+		ncalls += len(script)
+	}
 	base := make([][]callResult, len(w.Tasks))
-	for ti, script := range w.Tasks {
-		for _, s := range script {
-			priv := make([]*Compiled, len(w.Exprs))
-			for i := range w.Exprs {
-				c, v := rn.compile(i, 1<<12)
-				if v != nil {
-					return v
+	var baseViol *Violation
+	computeBase := func() {
+		ncalls = 0
+		for ti, script := range w.Tasks {
+			for _, s := range script {
+				priv := make([]*Compiled, len(w.Exprs))
+				for i := range w.Exprs {
+					c, v := rn.compile(i, 1<<12)
+					if v != nil {
+						baseViol = v
+						return
+					}
+					priv[i] = c
 				}
-				priv[i] = c
+				st.Evals += int64(len(priv))
+				o := rn.exec(priv, s, nil, 0, true)
+				st.Evals++
+				ncalls++
+				if o.Panic != nil && !o.Abort {
+					baseViol = viol(w, "panic", "task %d: %s panicked in isolation: %v\n%s", ti, s.Op, o.Panic, trimStack(o.Stack))
+				}
+				base[ti] = append(base[ti], reduce(o, engine == "inline"))
+				st.AddFaults(o.Env.Fired)
 			}
-			st.Evals += int64(len(priv))
-			o := rn.exec(priv, s, nil, 0, true)
-			st.Evals++
-			ncalls++
-			if o.Panic != nil && !o.Abort {
-				return viol(w, "panic", "task %d: %s panicked in isolation: %v\n%s", ti, s.Op, o.Panic, trimStack(o.Stack))
-			}
-			base[ti] = append(base[ti], reduce(o, engine == "inline"))
-			st.AddFaults(o.Env.Fired)
+		}
+	}
+	if engine != "baton" {
+		computeBase()
+		if baseViol != nil {
+			return baseViol
 		}
 	}
 	st.T("world %x engine=%s tasks=%d calls=%d", wh, engine, len(w.Tasks), ncalls)
@@ -476,6 +501,10 @@ func (pr propC07) Run(w *World, st *Stats) *Violation {
 			st.Nontrivial(wh)
 		}
 		st.Probe("baton_runs")
+		computeBase()
+		if baseViol != nil {
+			return baseViol
+		}
 	}
 	if v := checkSnap("by the end of the run"); v != nil {
 		v.World = w
